@@ -55,6 +55,7 @@ from concurrent.futures import ThreadPoolExecutor
 from vf import build, tlc, trace
 from vf import run as hrun
 from vf.core import InfraError
+from checks.deferred import Deferred
 
 LEVEL = "model_checking"
 READY = True
@@ -384,15 +385,17 @@ def run_check(ctx):
             crashed = any(e["e"] == "Crash" for e in events) or any(e["e"] == "Out" and (e["pred_freed"] or e["res_freed"]) for e in events)
             if not crashed:
                 raise InfraError("%d TLC-generated cases were not executed by the driver (first: %s)" % (len(missing), index[missing[0]][0]))
+        # vacuity of the recording: settled AFTER the verdicts (a tree on which the runs die, or whose fits leave the hooked path, is first judged on what it recorded)
+        deferred = Deferred(ctx)
         if not any(e["e"] == "Tts" and len(e["test"]) >= 2 for e in events):
-            raise InfraError("no train_test_split recording")
+            deferred.add("no train_test_split recording")
         if not any(e["e"] == "Groups" for e in events) or not any(e["e"] == "Create" for e in events):
-            raise InfraError("no Groups/Create events: hook H5 is not firing (hooks removed or guard off)")
+            deferred.add("no Groups/Create events: hook H5 is not firing (hooks removed or guard off)")
         for kind in ("Out", "ResOnly"):
             if not any(e["e"] == kind for e in events):
-                raise InfraError("no %s events recorded" % kind)
+                deferred.add("no %s events recorded" % kind)
         if not any(e["e"] == "Run" and e.get("sensall") == 1 for e in events) or not any(e["e"] == "Run" and e.get("hist", 0) >= 3 for e in events):
-            raise InfraError("no every-object / history blocks recorded")
+            deferred.add("no every-object / history blocks recorded")
         for b in blocks:
             run = _block_info(b)
             if run.get("scheme") in ("boot", "kfold") and run.get("ny", 1) > 1:
@@ -421,8 +424,10 @@ def run_check(ctx):
         main_ev = [e for b in blocks if not dead(b) for e in b]
         if dead_ev:
             trace.check_trace(ctx, "TraceCv", "Trace_Cv.cfg", "Trace_Cv_prop.cfg", dead_ev, on_reject, drop="block", max_rounds=14, label="trace_cv_dead_runs", xmx="4g", timeout=900)
-        trace.check_trace(ctx, "TraceCv", "Trace_Cv.cfg", "Trace_Cv_prop.cfg", main_ev, on_reject, drop="block", max_rounds=40, label="trace_cv", xmx="8g", timeout=1800)
+        if main_ev:
+            trace.check_trace(ctx, "TraceCv", "Trace_Cv.cfg", "Trace_Cv_prop.cfg", main_ev, on_reject, drop="block", max_rounds=40, label="trace_cv", xmx="8g", timeout=1800)
         ctx.traces(nblocks)
+        deferred.settle()
         # vacuity of the hook-bound events, AFTER the verdicts: a tree whose hooks stopped firing has still been judged on everything else
         alive = [b for b in blocks if not dead(b) and _block_info(b).get("e") == "Run"]
         loo_b = [b for b in alive if _block_info(b).get("scheme") == "loo"]
